@@ -121,7 +121,7 @@ BApply0(s, o, tag) ==
     ELSE IF o.op \in {"read", "readline", "readall", "readnum", "readm", "lines"} /\ ~Readable(s.mode)
          THEN BR(s, IF o.op = "lines" THEN <<"any">> ELSE <<"fail">>)
     ELSE IF o.op = "write" /\ ~Writable(s.mode) THEN BR(s, <<"fail">>)
-    ELSE IF o.op \in {"flush", "setvbuf"} /\ ~Writable(s.mode) THEN BR(s, <<"any">>)
+    ELSE IF o.op = "flush" /\ ~Writable(s.mode) THEN BR(s, <<"any">>)
     ELSE CASE o.op = "read" ->
                 (IF o.a \in RestCounts THEN BRead(s, Len(s.f))     \* negative / huge count: the rest of the file
                  ELSE IF o.n = 0 THEN BR(s, IF s.cur >= Len(s.f) THEN <<"eof">> ELSE <<"data", <<>>>>)
